@@ -24,6 +24,10 @@ type Ev struct {
 	Size int    `json:"n,omitempty"`
 	Seed int    `json:"s,omitempty"`
 	Hex  string `json:"x,omitempty"`
+	// Rep ("arq"): that many frames (payloads Pattern(Seed+i, Size)) back to
+	// back in one stream write instead of one; a compact way to script a long
+	// run of small frames.
+	Rep int `json:"r,omitempty"`
 	// Batch: fire together with the previous event and share its stream write
 	// (frames back to back in one segment).
 	Batch bool `json:"b,omitempty"`
